@@ -187,6 +187,7 @@ async fn run_case(seed: u64, idx: u64, world: &[Node], thorough: bool, script: S
     let mut rng = crate::kb::case_rng(seed ^ 0x73766371, idx);
     // the choices added later draw from a stream of their own (the older choices of a case stay what they were)
     let mut rng2 = crate::kb::case_rng(seed ^ 0x7376_6371_3272, idx);
+    let mut rng3 = crate::kb::case_rng(seed ^ 0x7376_6371_3373, idx);
     let mut fails: Vec<(String, String)> = vec![];
     let par = rng.range(1, 4) as usize;
     let predicate = rng.chance(1, 3);
@@ -206,11 +207,18 @@ async fn run_case(seed: u64, idx: u64, world: &[Node], thorough: bool, script: S
         b.udp4(9000);
         b.build(&local_key).unwrap()
     };
+    let local_id: K32 = local_enr.node_id().raw();
     let listen = ListenConfig::Ipv4 { ip: Ipv4Addr::new(10, 1, 0, 1), port: 9000 };
+    // one case in four: one request ends in a failure after an EMPTY first packet of a longer NODES answer (see
+    // below). The implementation then tells the lookup neither of a success nor of a failure, the peer is given up
+    // only when the peer timeout has run out - in real time (std::time::Instant), so in these cases it is 150 ms and
+    // the harness sleeps through it once
+    let mut empty_partial_left = if !timeout_case && rng3.chance(1, 4) { 1 } else { 0 };
+    let real_peer_timeout = if empty_partial_left > 0 { 150u64 } else { peer_timeout };
     let mut cb = ConfigBuilder::new(listen);
     cb.query_parallelism(par)
         .query_timeout(Duration::from_millis(query_timeout))
-        .query_peer_timeout(Duration::from_millis(peer_timeout))
+        .query_peer_timeout(Duration::from_millis(real_peer_timeout))
         .max_nodes_response(max_nodes_response)
         .ping_interval(Duration::from_secs(100_000))
         .disable_report_discovered_peers();
@@ -267,6 +275,17 @@ async fn run_case(seed: u64, idx: u64, world: &[Node], thorough: bool, script: S
     if rng.chance(1, 6) && !table.is_empty() {
         target = world[table[0]].id;
     }
+    // "every lookup": the node's own id is a target like any other (the usual way to refresh the neighbourhood)
+    if rng3.chance(1, 8) {
+        target = local_id;
+        script.push("the target of the lookup is the local node id".into());
+        tags.push("lookup:target_is_the_local_node_id".into());
+    }
+    // requests that end in a failure after the first packet of a longer NODES answer (see below)
+    let partial_then_timeout = empty_partial_left > 0 || rng3.chance(1, 3);
+    // two thirds of these cases are about a lookup over peers that know nobody (answers without records, no
+    // companion lookups): it ends by exhaustion of the table entries, one of its last requests ends that way
+    let barren = empty_partial_left > 0 && rng3.chance(2, 3);
     let k = if predicate { target_peer_no } else { 16 };
     let mut lookups: Vec<Lookup> = vec![Lookup { label: "the lookup".into(), target, predicate, k, start_step: 0, started: false, done: Arc::new(Mutex::new(vec![])) }];
     // further lookups next to it: issued together with it or while it is in flight; the requested number
@@ -281,12 +300,21 @@ async fn run_case(seed: u64, idx: u64, world: &[Node], thorough: bool, script: S
             if rng.chance(1, 4) {
                 t = target;
             }
+            if rng3.chance(1, 8) {
+                t = local_id;
+                tags.push("lookup:companion_target_is_the_local_node_id".into());
+            }
             let start_step = *rng.pick(&[0usize, 0, 1, 2, 5]);
             let label = if cpred { format!("companion lookup {} (predicate, {} results requested)", c + 1, count_name(ck)) } else { format!("companion lookup {} (plain)", c + 1) };
             script.push(format!("{} issued at step {}", label, start_step));
             tags.push(if cpred { format!("lookup:companion_predicate_count_{}", count_name(ck)) } else { "lookup:companion_plain".into() });
             lookups.push(Lookup { label, target: t, predicate: cpred, k: ck, start_step, started: false, done: Arc::new(Mutex::new(vec![])) });
         }
+    }
+    if barren {
+        lookups.truncate(1);
+        script.push("the peers asked know no other node (answers without records)".into());
+        tags.push("lookup:peers_know_nobody".into());
     }
     let single = lookups.len() == 1;
     for l in lookups.iter_mut().filter(|l| l.start_step == 0) {
@@ -298,6 +326,11 @@ async fn run_case(seed: u64, idx: u64, world: &[Node], thorough: bool, script: S
     let mut in_flight: BTreeMap<Vec<u8>, (usize, u64)> = BTreeMap::new(); // request id -> (peer, sent at)
     let mut asked: Vec<usize> = vec![];
     let mut answered: BTreeSet<usize> = BTreeSet::new();
+    // peers whose request failed after an empty first packet of a longer answer
+    let mut failed_empty: BTreeSet<usize> = BTreeSet::new();
+    // candidates handed over in the first packet of an answer whose request then failed
+    let mut partial_reported: BTreeSet<usize> = BTreeSet::new();
+    let initial_table: Vec<usize> = table.clone();
     let mut silent: Vec<(Vec<u8>, usize, Vec<u64>)> = vec![];
     // candidates the lookup learned of from answers delivered while their request was in flight
     let mut reported: BTreeSet<usize> = BTreeSet::new();
@@ -353,11 +386,14 @@ async fn run_case(seed: u64, idx: u64, world: &[Node], thorough: bool, script: S
                 ));
             }
         }
+        let n_find = msgs.iter().filter(|m| matches!(m, HandlerIn::Request(_, r) if matches!(r.body, RequestBody::FindNode { .. }))).count();
+        let mut seen_find = 0usize;
         for m in msgs {
             if let HandlerIn::Request(contact, req) = m {
                 let pid = contact.node_id().raw();
                 match &req.body {
                     RequestBody::FindNode { distances } => {
+                        seen_find += 1;
                         let pi = match id_index.get(&pid) {
                             Some(i) => *i,
                             None => {
@@ -388,6 +424,14 @@ async fn run_case(seed: u64, idx: u64, world: &[Node], thorough: bool, script: S
                             _ => 2,
                         };
                         let na = NodeAddress { socket_addr: contact.socket_addr(), node_id: contact.node_id() };
+                        // (see fate 1 below)
+                        let last_of_an_exhausted_lookup = empty_partial_left > 0
+                            && single
+                            && seen_find == n_find
+                            && silent.is_empty()
+                            && in_flight.len() == 1
+                            && initial_table.iter().chain(reported.iter()).chain(partial_reported.iter()).all(|j| asked.contains(j));
+                        let fate = if barren && last_of_an_exhausted_lookup { 1 } else { fate };
                         match fate {
                             0 => {
                                 // NODES: records at the requested distances from the responder (own record for 0)
@@ -395,6 +439,7 @@ async fn run_case(seed: u64, idx: u64, world: &[Node], thorough: bool, script: S
                                 let mut who: Vec<usize> = vec![];
                                 let big = style == 5 || (big_answers && rng2.chance(1, 3));
                                 let want = if big { rng2.range(17, 26) as usize } else { rng.below(5) as usize };
+                                let want = if barren { 0 } else { want };
                                 let mut tries = 0;
                                 while recs.len() < want && tries < if big { 600 } else { 200 } {
                                     tries += 1;
@@ -467,8 +512,86 @@ async fn run_case(seed: u64, idx: u64, world: &[Node], thorough: bool, script: S
                                 in_flight.remove(&req.id.0);
                             }
                             1 => {
-                                let _ = svc.inject(HandlerOut::RequestFailed(req.id.clone(), discv5::RequestError::Timeout));
-                                in_flight.remove(&req.id.0);
+                                // now and then the peer sends the first packet of an answer it announces as two to
+                                // four packets - with no record, or with one to three records at requested distances -
+                                // and never the rest: the request times out. C10: a peer whose request failed without
+                                // one record delivered has not answered (with records delivered the implementation
+                                // uses them and counts the peer; either reading of "answered" is accepted here).
+                                // C11: a request that fails is no offence, the peer is not banned for it.
+                                let mut plain_failure = !(partial_then_timeout && rng3.chance(1, 2)) && !(barren && last_of_an_exhausted_lookup);
+                                // (the empty variant: the implementation then tells the lookup neither of a success nor of
+                                // a failure, the peer is given up when the peer timeout has run out - and the pool notices
+                                // that only when no closer candidate is left to be asked. The harness sleeps through the
+                                // peer timeout; so only when no other request is in flight, about to be handled, or waiting
+                                // to be handed over, and every candidate the lookup can know of has been asked)
+                                let mut quiet_now = false;
+                                if !plain_failure && last_of_an_exhausted_lookup {
+                                    settle().await;
+                                    let more = svc.drain();
+                                    quiet_now = !more.iter().any(|m| matches!(m, HandlerIn::Request(..)));
+                                    pending_msgs.extend(more);
+                                }
+                                let mut recs: Vec<Enr> = vec![];
+                                if !plain_failure && !quiet_now {
+                                    let want = rng3.range(1, 3) as usize;
+                                    let mut tries = 0;
+                                    while recs.len() < want && tries < 200 {
+                                        tries += 1;
+                                        let j = rng3.below(world.len() as u64) as usize;
+                                        if odd.contains(&j) || j == pi || bumped[j] > 0 || !distances.contains(&log2d(&world[j].id, &pid)) || recs.iter().any(|r| r.node_id().raw() == world[j].id) {
+                                            continue;
+                                        }
+                                        recs.push(world[j].enr.clone());
+                                        partial_reported.insert(j);
+                                    }
+                                    if recs.is_empty() {
+                                        plain_failure = true;
+                                    }
+                                }
+                                if !plain_failure {
+                                    let total = rng3.range(2, 4);
+                                    if quiet_now {
+                                        empty_partial_left -= 1;
+                                    }
+                                    let listed = |na: &NodeAddress| {
+                                        let l = discv5::verif::filter::permit_ban_snapshot();
+                                        (l.ban_nodes.contains_key(&na.node_id), l.ban_ips.contains_key(&na.socket_addr.ip()))
+                                    };
+                                    let before = listed(&na);
+                                    let delivered = recs.len();
+                                    let _ = svc.inject(HandlerOut::Response(na.clone(), Box::new(Response { id: req.id.clone(), body: ResponseBody::Nodes { total, nodes: recs } })));
+                                    settle().await;
+                                    let _ = svc.inject(HandlerOut::RequestFailed(req.id.clone(), discv5::RequestError::Timeout));
+                                    settle().await;
+                                    let after = listed(&na);
+                                    if (after.0 && !before.0) || (after.1 && !before.1) {
+                                        fails.push((
+                                            "C11".into(),
+                                            format!("a responder was banned because its request timed out after the first of {} announced NODES packets ({} records, all at requested distances): a request that fails is no breach of the protocol", total, delivered)
+                                                .chars()
+                                                .map(|c| if c.is_ascii_digit() { '#' } else { c })
+                                                .collect(),
+                                        ));
+                                    }
+                                    if delivered > 0 {
+                                        answered.insert(pi);
+                                        if !tags.iter().any(|t| t == "lookup:request_failed_after_a_first_packet_with_records") {
+                                            tags.push("lookup:request_failed_after_a_first_packet_with_records".into());
+                                        }
+                                    } else {
+                                        failed_empty.insert(pi);
+                                        tags.push("lookup:request_failed_after_an_empty_first_packet".into());
+                                        script.push("a request fails (timeout) after an empty first packet of a longer NODES answer; the peer timeout (150 ms, real time) passes".into());
+                                        // the peer timeout passes (nothing else is in flight), something wakes the service
+                                        std::thread::sleep(Duration::from_millis(real_peer_timeout + 15));
+                                        let _ = svc.inject(HandlerOut::RequestFailed(RequestId(vec![0xfe, 0xfe, 0xfd, steps as u8]), discv5::RequestError::Timeout));
+                                        settle().await;
+                                    }
+                                    in_flight.remove(&req.id.0);
+                                } else {
+                                    let _ = svc.inject(HandlerOut::RequestFailed(req.id.clone(), discv5::RequestError::Timeout));
+                                    in_flight.remove(&req.id.0);
+                                }
                             }
                             _ => {
                                 silent.push((req.id.0.clone(), pi, distances.clone()));
@@ -629,6 +752,10 @@ async fn run_case(seed: u64, idx: u64, world: &[Node], thorough: bool, script: S
                 for id in &ids {
                     match id_index.get(id) {
                         Some(i) if answered.contains(i) => {}
+                        Some(i) if failed_empty.contains(i) => fails.push((
+                            "C10".into(),
+                            "the result contains a node that did not answer the lookup's request: the request to it FAILED (timeout), all it had sent was the first packet of a longer NODES answer, without a record".into(),
+                        )),
                         _ => fails.push(("C10".into(), "the result contains a node that did not answer the lookup's request".into())),
                     }
                 }
@@ -649,11 +776,12 @@ async fn run_case(seed: u64, idx: u64, world: &[Node], thorough: bool, script: S
     if timeout_case {
         script.push("query timeout of 30 ms (real time), every peer silent".into());
     }
-    // (virtual time; silent requests are resolved by the harness one at a time, so the virtual duration grows
-    // with the number of peers asked - with several lookups, some for an unbounded number of results, it is not a yardstick)
-    if single && !timeout_case && now > query_timeout + 60_000 {
-        fails.push(("C09".into(), "the lookup outlived the query timeout by more than a minute".into()));
-    }
+    // (the virtual clock is no yardstick for the query timeout: the pool reads the system clock, and silent
+    // requests are resolved by the harness one at a time, so the virtual duration grows with the number of
+    // peers asked - a lookup over a table whose entries keep leaving asked 108 peers in 95 virtual seconds and
+    // made an earlier virtual-time check alarm on the unchanged tree (seed 10, case 144); the cut-off by the
+    // query timeout is checked in the real-time cases above)
+    let _ = (now, query_timeout);
     let results: Vec<()> = if service_dead.is_none() && lookups.iter().all(|l| !l.done.lock().unwrap().is_empty()) { vec![()] } else { vec![] };
     // C11: a responder that returns records at other distances is banned - also when its answer
     // arrives after the lookup that asked has ended
@@ -961,7 +1089,7 @@ pub fn main(args: &[String]) {
             }
         }
     }
-    sum.rule = "real find_node / find_node_predicate lookups through the real Service event loop (paused clock) over tables of 0-40 entries; the harness plays the handler: every FINDNODE is answered with NODES (one or two packets, records at the requested distances; in a third of the cases newer versions of routing-table entries' records now and then), failed, or left silent (late answers/failures now and then); parallelism 1-4, predicate lookups with 1-6 requested results; in a third of the cases 1-3 further lookups are issued next to the first (at once or while it is in flight): plain ones and predicate lookups asking for usize::MAX, usize::MAX/2, 0, 1, 16 or 100 results - each must end with a result and the service task must survive; in a quarter of the cases answers of 17-26 records in 3-4 packets, in a fifth only the first 1-3 requests are answered (so) and all others fail (exhaustion with a handful of results: every reported candidate must have been asked); in a sixth the table also holds 1-2 entries whose record has no socket usable in IPv4 mode (put there through the shared table handle); after the ordinary cases cases/4 QUIET cases (numbered from 1000000): a lookup over a few ordinary and 0-3 unusable entries, every request resolved at once, no other traffic - when the service is idle with nothing in flight the lookup must have ended, else the harness waits more than the (400 ms, real time) query timeout before it reports; non-trivial = at least two peers were asked".into();
+    sum.rule = "real find_node / find_node_predicate lookups through the real Service event loop (paused clock) over tables of 0-40 entries; the harness plays the handler: every FINDNODE is answered with NODES (one or two packets, records at the requested distances; in a third of the cases newer versions of routing-table entries' records now and then), failed, or left silent (late answers/failures now and then); parallelism 1-4, predicate lookups with 1-6 requested results; in a third of the cases 1-3 further lookups are issued next to the first (at once or while it is in flight): plain ones and predicate lookups asking for usize::MAX, usize::MAX/2, 0, 1, 16 or 100 results - each must end with a result and the service task must survive; in a quarter of the cases answers of 17-26 records in 3-4 packets, in a fifth only the first 1-3 requests are answered (so) and all others fail (exhaustion with a handful of results: every reported candidate must have been asked); in a sixth the table also holds 1-2 entries whose record has no socket usable in IPv4 mode (put there through the shared table handle); after the ordinary cases cases/4 QUIET cases (numbered from 1000000): a lookup over a few ordinary and 0-3 unusable entries, every request resolved at once, no other traffic - when the service is idle with nothing in flight the lookup must have ended, else the harness waits more than the (400 ms, real time) query timeout before it reports; in an eighth of the cases the target of the lookup (and of a companion) is the local node id; in a third, requests that fail do so after the first packet (1-3 records at requested distances) of an answer announced as 2-4 packets - the peer must not be banned for it (C11); in a quarter of the cases (peer timeout 150 ms real time, two thirds of them with peers that know nobody and no companions) the last request of an exhausted lookup fails after an EMPTY first packet of a longer answer: that peer has not answered and must not be in the result (C10); non-trivial = at least two peers were asked".into();
     sum.write(&o.out);
     println!("svcq: {} cases, {} non-trivial, {} monitor failure signatures", sum.evaluations, sum.distinct_nontrivial, sum.monitor_failures.len());
 }
